@@ -20,10 +20,10 @@ RULE = ("(a) is_address_valid() compared with the reference predicate for all 65
         "type) and the master's lease table may change only on address requests and releases. "
         "Non-trivial: the frame reached update(); distinct = (role, level, "
         "type, length, destination class, origin class).")
-RULE += (" Later rounds added: every transmission must be explained by a received frame, the lease table may only change on requests/releases, node address and pipes are preserved, answer-worthy frames followed by frames that must be discarded, fragment pairs with system types, masters with exhausted slots / a table loaded from JSON, relaying nodes.")
+RULE += (" Later rounds added: every transmission must be explained by a received frame, the lease table may only change on requests/releases, node address and pipes are preserved, answer-worthy frames followed by frames that must be discarded, fragment pairs with system types, masters with exhausted slots / a table loaded from JSON, relaying nodes., nodes whose multicast level was re-assigned, complete fragment streams of 2..9 fragments, and the clause that whatever the application reads came from a received frame (queued_frames_were_received).")
 REQUIRED = {"predicate": 65537, "update_returns": 8000, "bounded_time": 8000,
             "invalid_dropped": 1500, "transmissions_explained": 8000, "lease_table_explained": 1500,
-            "address_preserved": 8000}
+            "address_preserved": 8000, "queued_frames_were_received": 2000}
 BUDGET = {"quick": 480, "thorough": 900}
 EXHAUSTIVE = {"quick": "validity predicate over all 65536 values + None",
               "thorough": "validity predicate over all 65536 values + None"}
@@ -171,6 +171,32 @@ def gen_fragment_pairs(ctx):
                            "id": fid + 50, "pipe": 2, "fixed_origin": 0o5})
         yield {"part": "frames", "role": role, "level": 0 if role.startswith("master") else 2,
                "frames": frames, "seed": 31, "phantom": True, "burst": 2}
+        # complete streams of 2..9 full fragments (from 7 on longer than any message a node sends)
+        frames = []
+        for n in range(2, 10):
+            for typ in (5, 100):
+                fid = 700 + n * 2 + (typ == 100)
+                for j in range(n):
+                    ft = 148 if j == 0 else (150 if j == n - 1 else 149)
+                    frames.append({"to": None, "dcls": "self", "ocls": "valid", "type": ft, "len": 24,
+                                   "reserved": typ if j == n - 1 else n - j, "id": fid, "pipe": 3, "fixed_origin": 0o5})
+        yield {"part": "frames", "role": role, "level": 0 if role.startswith("master") else 2,
+               "frames": frames, "seed": 32, "phantom": True, "burst": 1}
+
+
+def drain_checked(ctx, case, o, seen_heads, frames_so_far):
+    """the application empties its queue: whatever it is handed came from a frame that was received
+    (same origin and frame id) - never from nowhere"""
+    while o.available():
+        f = o.read()
+        ctx.clause("queued_frames_were_received")
+        if f is None or (f.header.from_node, f.header.frame_id) not in seen_heads:
+            ctx.violation("queued-frame-never-received/%s" % case["role"].rstrip("0123456789"),
+                          "%s: the application read %s (%d message bytes) - no received frame had that origin and frame id"
+                          % (case["role"], None if f is None else f.header.to_string(), 0 if f is None else len(f.message)),
+                          dict(case, frames=frames_so_far[-12:], burst=case["burst"]))
+            return False
+    return True
 
 
 def make_node(rig, role, level, seed):
@@ -284,13 +310,18 @@ def _frames(ctx, case, rig, radio, o):
     me = o.node_address
     frames = case["frames"]
     i = 0
+    seen_heads = set()
     while i < len(frames):
         burst = frames[i:i + case["burst"]]
         i += case["burst"]
         # drain the application's queue first so that acceptance is visible
-        while o.available():
-            o.read()
+        if not drain_checked(ctx, case, o, seen_heads, frames[:i]):
+            return
         built = [build(fr, me, rng) for fr in burst]
+        for raw, _ in built:
+            if len(raw) >= 8:
+                hh = net_ref.unpack_header(raw)
+                seen_heads.add((hh["from"], hh["id"]))
         qlen0 = len(o.queue)
         table0 = dict(getattr(o, "dhcp_dict", None) or {})
         addr0 = o.node_address
@@ -398,6 +429,8 @@ def _frames(ctx, case, rig, radio, o):
                 ctx.nontrivial((case["role"], case["level"], "raw", len(fr["raw"]) // 2))
             else:
                 ctx.nontrivial((case["role"], case["level"], fr["type"], fr["len"], fr["dcls"], fr["ocls"]))
+    if not drain_checked(ctx, case, o, seen_heads, frames):
+        return
     if radio.san:
         ctx.violation("sanitizer:" + radio.san[0][0], radio.san[0][1], case)
         return
